@@ -88,12 +88,32 @@ def mc_configs(sims, thorough=False):
         for b in base:
             c = dict(b)
             c['sim'] = sim
-            c['tmin'] = 0
+            c['tmin'] = [0, -6.0, 2.5][len(out) % 3]      # the start time must not matter (in particular tmin < -1)
             g = c['gamma'] if c['gamma'] > 0 else 1.0
-            c['times'] = [0.6 / g, 2.0 / g]
-            c['tmax'] = 2.5 / g
+            c['times'] = [c['tmin'] + 0.6 / g, c['tmin'] + 2.0 / g]
+            c['tmax'] = c['tmin'] + 2.5 / g
             out.append(c)
     return out
+
+
+def tree_prop_weighted(case):
+    model = SISModel(case)
+    fails, stats = steplaw.explore(model, 'weighted-Gillespie_SIS', walk=None, max_depth=6, max_levels=600)
+    res = Result(fails, nontrivial=True, classes=['weighted-SIS'])
+    res.stats = stats
+    return res
+
+
+def behavioural_weighted(ctx, sub, quick):
+    """weighted Gillespie_SIS trees with many distinct edge/node weights (behavioural half of C16)"""
+    cases = []
+    for n, edges in ((4, c01.PAW), (4, c01.STARCHORD), (3, c01.TRI)):
+        for shift in range(2 if quick else 6):
+            gc = {'nodes': ['n%d' % i for i in range(n)], 'edges': [['n%d' % a, 'n%d' % b] for a, b in edges],
+                  'ew': {'w': gen.det_weights(len(edges), shift)}, 'nw': {'rw': gen.det_weights(n, shift + 2)}}
+            cases.append({'gc': gc, 'tau': 1.0, 'gamma': 0.7, 'ew': 'w', 'nw': 'rw', 'I0': ['n%d' % (shift % n)], 'R0': [],
+                          'tmin': 0, 'tmax': 2.0})
+    c01.run_exhaustive(ctx, sub, cases, 'eonverif.props.c02', 'tree_prop_weighted')
 
 
 def replay(ctx, sub, case):
